@@ -128,7 +128,9 @@ struct Gen {
 		}
 	}
 
+	bool tieMode = false; float tieA = 1.0f, tieB = 1.0f;     // C15: all utilities of an operation from a palette of two, so that sums, means and products tie mathematically and only rounding order can tell them apart
 	float utilityValue(bool allowZero) {
+		if (tieMode) return rng.chance(0.5) ? tieA : tieB;
 		static const float plain[] = {1.0f, 0.5f, 2.0f, 0.25f, 3.0f, 0.75f, 1.5f, 0.1f, 0.7f, 0.3f};
 		static const float exotic[] = {1e-6f, 1e6f, 1e-30f, 1e-40f, 16777216.0f, 0.333333343f, 1.00000012f, 5.9604645e-8f};
 		if (allowZero && rng.chance(0.25)) return 0.0f;
@@ -137,6 +139,8 @@ struct Gen {
 	}
 
 	void resolversFor(Op& op) {
+		tieMode = lens == "C15" && rng.chance(0.3);
+		if (tieMode) { static const float pal[] = {0.1f, 0.3f, 0.7f, 0.9f, 1.1f, 0.6f, 0.2f, 1.7f}; tieA = pal[rng.below(8)]; tieB = rng.chance(0.5) ? tieA : pal[rng.below(8)]; }
 		bool any = false;
 		for (int r : compoRegions) if (sh.st[size_t(r)].strategy >= 2) any = true;
 		if (!any) return;
@@ -266,6 +270,7 @@ RunPlan generate(uint64_t seed, const std::string& lens, const std::string& shap
 	if (caps & CAP_BUILTIN_RNG) { w[OP_CRASH] = 0; w[OP_RESTART] = 0; }
 	if (is("C05")) { w[OP_REACT] = 30; w[OP_QUERY] = 18; w[OP_UPDATE] = 20; }
 	if (is("C06") || is("C07") || is("C19")) { w[OP_EXIT] = manual ? 7 : 0; w[OP_ENTER] = manual ? 9 : 0; w[OP_PLAN_APPEND] = plans ? 26 : 0; w[OP_SUCCEED] = plans ? 12 : 0; w[OP_FAIL] = plans ? 5 : 0; w[OP_PLAN_REMOVE] = plans ? 6 : 0; w[OP_PLAN_CLEAR] = plans ? 4 : 0; }
+	if (is("C10")) { w[OP_PLAN_APPEND] = plans ? 14 : 0; w[OP_SUCCEED] = plans ? 10 : 0; }    // storage the pool hands out: payload-less and payload-carrying tasks in fresh and recycled slots of differently pre-filled twins
 	if (is("C14")) { w[OP_PLAN_APPEND] = plans ? 18 : 0; w[OP_SUCCEED] = plans ? 12 : 0; w[OP_PLAN_CLEAR] = plans ? 3 : 0; w[OP_PLAN_REMOVE] = plans ? 3 : 0; }    // payload-carrying and payload-less tasks through recycled pool slots
 	if (is("C16")) { w[OP_LOGGER] = logc ? 6 : 0; w[OP_UPDATE] = 40; }
 	if (is("C08")) { w[OP_SNAPSHOT] = 14; w[OP_PERTURB] = 10; w[OP_DELIVER] = 20; }
